@@ -490,10 +490,10 @@ package types
 //@   requires[C09] self != nil
 //@ contract interface SessionType.String(self)
 //@   requires[C09] shapeOK(self)
-//@   decreases[C09] size(self)
+//@   decreases[C09] size(self), 0
 //@ contract interface SessionType.StringWithOuterModality(self)
 //@   requires[C09] shapeOK(self)
-//@   decreases[C09] size(self)
+//@   decreases[C09] size(self), 0
 
 // the polarity of a type is read off its head constructor: a type name has to be unfolded first
 //@ contract interface SessionType.Polarity(self)
@@ -730,8 +730,11 @@ package types
 //@ contract interface SessionType.String(self)
 //@   ensures C15.print: result == pp(self)
 //@   ensures C15.printFrame: buffersKept()
+// termination of the printers: a choice hands its branch list to stringifyBranches, whose measure is the largest branch
+//@ spec optsMax(bs []Option) int where (forall k int :: 0 <= k && k < len(bs) ==> size(bs[k].SessionType) <= result) && (len(bs) >= 1 ==> (exists k int :: 0 <= k && k < len(bs) && result == size(bs[k].SessionType)))
 //@ contract stringifyBranches
 //@   requires[C09] optionsOK(options)
+//@   decreases[C09] optsMax(options), 1
 //@   ensures C15.branches: result == ppOpts(options, len(options))
 //@   loop 1 invariant bufstr[addrof(buf)] == ppOpts(options, idx + 1) + ite(0 <= idx && idx < len(options) - 1, ", ", "")
 //@   loop 1 invariant buffersKept()
